@@ -16,6 +16,9 @@ unsafe extern "C" {
     fn open(path: *const u8, flags: i32, ...) -> i32;
 }
 pub fn silence_stderr() {
+    if std::env::var("VERIF_KEEP_STDERR").is_ok() {
+        return;
+    }
     unsafe {
         let fd = open(b"/dev/null\0".as_ptr(), 1);
         if fd >= 0 {
@@ -593,7 +596,12 @@ pub fn mutate_once(rng: &mut Rng, lines: &mut Vec<String>) -> &'static str {
     let pick_id = |rng: &mut Rng, pool: &Vec<String>| -> String {
         if pool.is_empty() || rng.chance(1, 6) { format!("{}", rng.below(40)) } else { rng.pick(pool).clone() }
     };
-    match rng.below(22) {
+    let kind = rng.below(22);
+    // token-level mutations need a line with at least one token
+    if t.is_empty() && kind >= 4 && kind != 19 && kind != 20 {
+        return "noop";
+    }
+    match kind {
         0 => {
             lines.remove(li);
             "del_line"
@@ -852,9 +860,9 @@ fn width_variant(rng: &mut Rng, old: &str, sort_line: bool) -> String {
     match rng.below(12) {
         0 => "0".into(),
         1 => "1".into(),
-        2 => format!("{}", w + 1),
+        2 => format!("{}", w.saturating_add(1)),
         3 => format!("{}", w.saturating_sub(1)),
-        4 => format!("{}", w * 2),
+        4 => format!("{}", w.saturating_mul(2)),
         5 => {
             if sort_line {
                 "5000".into()
@@ -870,7 +878,7 @@ fn width_variant(rng: &mut Rng, old: &str, sort_line: bool) -> String {
             if sort_line {
                 "129".into()
             } else {
-                format!("{}", 4294967296u64 - w)
+                format!("{}", 4294967296u64.saturating_sub(w))
             }
         }
         _ => format!("{}", rng.below(70)),
